@@ -28,7 +28,7 @@ type Family struct {
 	Serial bool
 	// MaxWorkers limits the number of worker processes (0 = all cores).
 	MaxWorkers int
-	// HangSeconds overrides the no-progress watchdog (default 120).
+	// HangSeconds overrides the no-progress watchdog (default 300: generous, because a loaded machine must not turn into an ENGINE-ERROR).
 	HangSeconds int
 	// FatalPerCase makes the signature of a fatal (process-killing) case include its choice sequence,
 	// so that known findings identify individual cases instead of the whole family.
